@@ -152,6 +152,8 @@ def run(item, ctx, tier, seed):
         return _run_mixed(item, ctx, blocks)
     pos, neg, vals = ot.concretise(blocks, item["grid"], seed)
     T = ot.threshold_alphabet(vals)
+    if item["grid"] in ("int", "uint"):
+        T = T + ot.INT_SENTINELS
     Tarr = np.array(T, dtype=float)
     lo, hi = (min(vals), max(vals)) if vals else (math.inf, -math.inf)
     nontriv_t = [lo <= t <= hi for t in T]
